@@ -176,14 +176,17 @@ def _gate_rewritten(prop, ctx, repo, errors):
   ctx.departure = {'functions_changed': changed, 'reference_statements_gone': missing, 'examples': ex[:8], 'gate': 'functions >= %d or statements >= %d' % (GATE_FUNCS, GATE_STMTS)}
   if not ((GATE_FUNCS > 0 and changed >= GATE_FUNCS) or (GATE_STMTS > 0 and missing >= GATE_STMTS)):
     return
+  known_keys = {(k.get('rule'), k.get('construct_key')) for k in report.load_known() if k.get('status') == 'known'}
   for R in ctx.rules:
-    if not R.findings:
+    gated = [f for f in R.findings if (f.rule, f.key) not in known_keys]  # a listed finding stays what it is
+    if not gated:
       continue
-    for f in R.findings:
+    kept = [f for f in R.findings if (f.rule, f.key) in known_keys]
+    for f in gated:
       R.inconclusive.append((f.key, f.file, f.line, 'reported by the rule on a broadly rewritten tree (%d functions of this property\'s files changed, %d reference statements gone): %s' % (changed, missing, f.msg[:300])))
-    keys = {f.key for f in R.findings}
+    keys = {f.key for f in gated}
     R.instances = [i for i in R.instances if not (i[0] in keys and not i[3])]
-    R.findings = []
+    R.findings = kept
     if not R.error:
       R.error = 'inconclusive: %d report(s) on a broadly rewritten tree, first: %s [%s:%d] %s' % (len(R.inconclusive), R.inconclusive[-1][0][:90], R.inconclusive[-1][1], R.inconclusive[-1][2], R.inconclusive[-1][3][:260])
       errors.append('%s: %s' % (R.id, R.error))
